@@ -126,6 +126,54 @@ func forEachMutant(base []byte, others [][]byte, rng *rand.Rand, nrand int, f fu
 		}
 		f(fmt.Sprintf("noise#%d", j), buf, -1, 0)
 	}
+	// M6: numbers inside strings (the parameters of type names: FixedString(N), Decimal(P, S), DateTime64(P), ...) replaced
+	// by zero, negative, boundary and huge values, the length prefix of the enclosing string kept consistent
+	isDigit := func(c byte) bool { return c >= '0' && c <= '9' }
+	for a := 1; a < len(base); a++ {
+		if !isDigit(base[a]) || isDigit(base[a-1]) || (base[a-1] != '(' && base[a-1] != ' ' && base[a-1] != ',') {
+			continue
+		}
+		b := a
+		for b < len(base) && isDigit(base[b]) {
+			b++
+		}
+		if b >= len(base) || (base[b] != ')' && base[b] != ',') {
+			continue
+		}
+		// the enclosing length-prefixed string: the nearest byte before the run that is the length of a printable string covering it
+		pfx := -1
+		for p := a - 1; p >= 0 && p >= a-127; p-- {
+			l := int(base[p])
+			if l >= 128 || p+1+l < b+1 || p+1+l > len(base) {
+				continue
+			}
+			ok := true
+			for _, c := range base[p+1 : p+1+l] {
+				if c < 0x20 || c > 0x7e {
+					ok = false
+					break
+				}
+			}
+			if ok {
+				pfx = p
+				break
+			}
+		}
+		for _, rep := range []string{"0", "-1", "1", "00", "255", "256", "65536", "2147483648", "9223372036854775808", "99999999999999999999", ""} {
+			if rep == string(base[a:b]) {
+				continue
+			}
+			buf = append(buf[:0], base[:a]...)
+			buf = append(buf, rep...)
+			buf = append(buf, base[b:]...)
+			if pfx >= 0 {
+				if nl := int(base[pfx]) + len(rep) - (b - a); nl >= 0 && nl < 128 {
+					buf[pfx] = byte(nl)
+				}
+			}
+			f(fmt.Sprintf("num@%d=%q", a, rep), buf, a, len(rep)-(b-a))
+		}
+	}
 }
 
 func hostileTargets(depth int, rng *rand.Rand, rev int) []hTarget {
